@@ -145,6 +145,9 @@ def run(ctx):
     rule6(ctx, prog, flows, root)
     rule7(ctx, prog, flows, root)
     rule8(ctx, prog, flows, root)
+    from props.c08 import relaxation_discipline
+
+    relaxation_discipline(ctx, prog, flows, "R-C06-9", {"closeness::single_source_shortest_path_length_weighted": "closeness"})
     # R-C06-4: the value is (r-1)/sum, times (r-1)/(n-1): a quotient of counts and distances.  Nothing in the
     # definition limits or rounds it -- with weights below 1 it exceeds 1
     ctx.rule("R-C06-4", "the closeness formula applies no limiting or rounding operation (min / max / clamp / round ..) to the quotient")
